@@ -11,5 +11,5 @@ Extraction "c07.ml"
   Model.Dispatch.receive Model.Dispatch.dispatch
   Model.SnepHdr.snep_serve Model.SnepHdr.client_step Model.SnepHdr.ho_serve Model.SnepHdr.hc_step
   Model.DepAny.i_exchange Model.DepAny.t_exchange Model.DepAny.t_deactivate
-  Model.Pdu.decode.
+  Model.Pdu.decode Model.Pdu.encode Model.Pdu.pdu_len.
 Cd "../../coq".
